@@ -195,6 +195,8 @@ def state_wp(name):
     wp.input_array('self.m_cineq', 'g', 'n_ineq')
     wp.input_array('self.m_mineq', 'mineq', 'n_ineq')
     wp.input_array('self.m_lgx', 'lgx', 'n')
+    wp.input_array('self.m_gx', 'gx', 'n')       # the other stored vectors: a residual taken of the wrong member is refuted, not undecided
+    wp.input_array('self.m_x', 'x', 'n')
     return wp
 
 
